@@ -79,7 +79,7 @@ class Relational(FunctionContract):
         if kind == "raise":
             return []
         s0 = sums_of(it, res)
-        out = []
+        out = self.direct_posts(it, res, s0)
         # --- sums-only manager gives the same sums (C06: a cheaper output type never changes the answer)
         scls = it.get_function("prtpy/binners.py::BinnerKeepingSums")
         try:
@@ -111,6 +111,39 @@ class Relational(FunctionContract):
         return out
 
 
+    def direct_posts(self, it, res, s0):
+        """the property's own postconditions at this shape (they are what the T1 contracts prove unbounded; here they come with a concrete,
+        replayable counter-model when they fail)"""
+        from .exact import same_multiset
+        out = []
+        lists = [[x for x in l.elems] for l in res[1].elems] if isinstance(res, tuple) else None
+        vals = lambda l: [L.val(x.t) for x in l]
+        if lists is None:
+            return out
+        placed = [x.t for l in lists for x in l]
+        xs = [x.t for x in self._xs]
+        wf = z3.And([z3.BoolVal(len(s0) == len(lists))] + [s == sum(vals(l), z3.RealVal(0)) for s, l in zip(s0, lists)])
+        out.append(("C06:sums-describe-the-bins", wf))
+        if self.is_part:
+            k = self._shape[1]
+            out.append(("C01:numbins-bins-holding-every-item-exactly-once", z3.And(z3.BoolVal(len(s0) == k and len(placed) == len(xs)), same_multiset(placed, xs) if len(placed) == len(xs) else z3.BoolVal(False))))
+            if s0 and xs:
+                biggest = xs and __import__("contracts.objectives", fromlist=["zmax"]).zmax([L.val(x) for x in xs])
+                mx, mn = __import__("contracts.objectives", fromlist=["zmax"]).zmax(s0), __import__("contracts.objectives", fromlist=["zmin"]).zmin(s0)
+                out.append(("C08:gap<=largest-item", mx - mn <= biggest))
+        elif self.name in ("ff", "ffd", "bf", "bfd"):
+            B = term_of(self._param)
+            out.append(("C03:feasible-packing-of-exactly-the-items", z3.And(z3.And([s <= B for s in s0] or [z3.BoolVal(True)]), z3.BoolVal(len(placed) == len(xs) and all(len(l) >= 1 for l in lists)),
+                                                                           same_multiset(placed, xs) if len(placed) == len(xs) else z3.BoolVal(False))))
+            out.append(("C09:any-fit", z3.And([s0[a] + L.val(lists[b][0].t) > B for a in range(len(s0)) for b in range(a + 1, len(s0)) if lists[b]] or [z3.BoolVal(True)])))
+        else:
+            B = term_of(self._param)
+            used_once = len(set(str(p) for p in placed)) == len(placed)
+            total = sum([L.val(x) for x in xs], z3.RealVal(0))
+            out.append(("C05:valid-cover-wasting-less-than-one-bin", z3.And(z3.And([s >= B for s in s0] or [z3.BoolVal(True)]), total - sum(s0, z3.RealVal(0)) < B,
+                                                                           z3.Or([z3.And([p == xs[sg[i]] for i, p in enumerate(placed)]) for sg in itertools.permutations(range(len(xs)), len(placed))] or [z3.BoolVal(True)]) if len(placed) <= len(xs) else z3.BoolVal(False))))
+        return out
+
     # ---- replay of a counter-model on the real code: the relations are re-evaluated on two REAL executions
     def witness(self, it, model, args):
         from pyvc.concrete import Concretizer, jsonable
@@ -137,8 +170,10 @@ class Relational(FunctionContract):
                 return "ValueError"
             return [float(x) for x in (r[0] if outputtype is prtpy.out.PartitionAndSumsTuple else r)]
         base = run(vals, p)
+        direct = self.real_direct(fn, names, vals, p)
         close = lambda a, b: a == b if isinstance(a, str) or isinstance(b, str) else len(a) == len(b) and all(abs(x - y) <= 1e-9 * max(1, abs(x)) for x, y in zip(a, b))
         rel = {"sums-only-manager": close(base, run(vals, p, outputtype=prtpy.out.Sums))}
+        rel.update(direct)
         for c in (2, 7):
             sc = run([c * v for v in vals], p if self.is_part else c * p)
             rel[f"scaling-by-{c}"] = close(sc, base if isinstance(base, str) else [c * x for x in base])
@@ -146,6 +181,31 @@ class Relational(FunctionContract):
             for perm in list(itertools.permutations(range(len(vals))))[1:4]:
                 rel["reordering"] = rel.get("reordering", True) and close(sorted(run(vals, p, order=perm)), sorted(base))
         return rel
+
+    def real_direct(self, fn, names, vals, p):
+        """the direct postconditions evaluated on one real execution"""
+        import prtpy
+        from collections import Counter
+        d = dict(zip(names, vals))
+        call = prtpy.partition if self.is_part else prtpy.pack
+        kw = {"numbins": p} if self.is_part else {"binsize": p}
+        try:
+            sums, lists = call(algorithm=fn, items=names, valueof=d.__getitem__, outputtype=prtpy.out.PartitionAndSumsTuple, **kw)
+        except ValueError:
+            return {}
+        sums = [float(x) for x in sums]
+        tol = 1e-9
+        out = {"wf": all(abs(s - sum(float(d[x]) for x in l)) <= tol * max(1, abs(s)) for s, l in zip(sums, lists)) and len(sums) == len(lists)}
+        placed = Counter(x for l in lists for x in l)
+        if self.is_part:
+            out["partition"] = len(sums) == p and placed == Counter(names)
+            out["gap"] = (max(sums) - min(sums) <= max(float(v) for v in vals) + tol) if sums and vals else True
+        elif self.name in ("ff", "ffd", "bf", "bfd"):
+            out["feasible"] = all(s <= float(p) + tol for s in sums) and placed == Counter(names) and all(len(l) >= 1 for l in lists)
+            out["any-fit"] = all(sums[a] + float(d[lists[b][0]]) > float(p) - tol for a in range(len(sums)) for b in range(a + 1, len(sums)))
+        else:
+            out["cover"] = all(s >= float(p) - tol for s in sums) and all(c <= 1 for c in placed.values()) and sum(float(v) for v in vals) - sum(sums) < float(p) + tol
+        return out
 
     def real_fn(self):
         import importlib
